@@ -104,11 +104,7 @@ theorem step_ok (U : List Node) (hU : U.Nodup) (pre : List Op) (op : Op) (rest :
   have hselfJ : (o self).join = none := by
     have := self_never_joined pre op; simpa [evAt, ho] using this
   have hselfL : (o self).left = none := by
-    cases h : (o self).left with
-    | none => rfl
-    | some t =>
-      obtain ⟨c, hc⟩ := self_left_only_if_notified pre op t (hoL _ _ h)
-      exact absurd hc (guard_no_self_left _ hgp c)
+    have := self_never_left pre op; simpa [evAt, ho] using this
   have h1 : (renderStep U o).any (·.node == self) = false := by
     rw [List.any_eq_false]
     intro x hx
